@@ -28,6 +28,7 @@ func init() {
 		Explain: "Decides uniqueness and causal lateness of locally originated Lamport times structurally: in Serf.UserEvent and Serf.Query the LTime stored into the originated message is (up to a constant offset >= -1) the result of ONE LamportClock.Increment() on the matching clock — a single atomic fetch-add, hence distinct for concurrent callers and not below the clock value at call entry — never a Time() read that is advanced by a separate later step; the receive handlers witness every processed time first (C05/C14), so it exceeds every time already processed; the query-response table is keyed by that same value.",
 		Run:     runC06,
 		Mutants: []Mutant{
+			{Name: "own-queries-not-witnessed", File: "serf/serf.go", Func: "func (s *Serf) handleQuery(", Old: "\ts.queryClock.Witness(query.LTime)\n", New: "\tif query.SourceNode != s.config.NodeName {\n\t\ts.queryClock.Witness(query.LTime)\n\t}\n", Expect: "R4"},
 			{Name: "userevent-read-then-increment", File: "serf/serf.go", Func: "func (s *Serf) UserEvent(", Old: "LTime:   s.eventClock.Increment() - 1,", New: "LTime:   s.eventClock.Time(),", Expect: "R1"},
 			{Name: "query-read-time", File: "serf/serf.go", Func: "func (s *Serf) Query(", Old: "LTime:       s.queryClock.Increment() - 1,", New: "LTime:       s.queryClock.Time(),", Expect: "R1"},
 			{Name: "query-wrong-clock", File: "serf/serf.go", Func: "func (s *Serf) Query(", Old: "s.queryClock.Increment() - 1,", New: "s.eventClock.Increment() - 1,", Expect: "R1"},
@@ -83,7 +84,7 @@ func witnessRules(c *an.Ctx, wrap bool) {
 			c.Add(an.Path(a[1]) == load, "R2", "Witness:cas-expected", k, "the CAS expects the value loaded from the counter ("+an.Path(a[1])+")", "access path")
 			// the load feeding the CAS is in the retry loop: the failed edge re-executes it
 			var ldInstr ssa.Instruction
-			if cl, ok := an.Strip(a[1]).(*ssa.Call); ok {
+			if cl, ok := an.Strip(an.CallerValue(an.Strip(a[1]))).(*ssa.Call); ok {
 				ldInstr = cl
 			}
 			nv, okNew := an.Strip(a[2]).(*ssa.BinOp)
@@ -142,6 +143,27 @@ func runC06(c *an.Ctx) {
 	witnessRules(c, false)
 	c.Rule("R3 (shared with C19) the clocks only move forward: the counter is modified by Add(+c) and by Witness's CompareAndSwap only — no roll-back of an allocated time")
 	counterWriters(c, "R3")
+	// "everything the node has already processed": each handler witnesses the message's time on its clock
+	// on every path, whatever the message says (its source, its age, whether it is a duplicate)
+	c.Rule("R4 every message handler witnesses the message's Lamport time on the matching clock unconditionally")
+	for _, k := range []struct{ method, clock string }{{"handleUserEvent", "eventClock"}, {"handleQuery", "queryClock"}, {"handleNodeJoinIntent", "clock"}, {"handleNodeLeaveIntent", "clock"}} {
+		fn := sm(c, "R4", "Serf", k.method)
+		if fn == nil {
+			continue
+		}
+		isW := func(in ssa.Instruction) bool {
+			if !an.IsCallTo(in, "(*LamportClock).Witness") {
+				return false
+			}
+			a := an.CallOf(in).Args
+			return an.Path(a[0]) == "&$0."+k.clock && an.Path(a[1]) == "$1.LTime"
+		}
+		ok, ex := an.MustPass(fn, nil, isW)
+		c.Add(ok, "R4", k.method+":witness-always", fn, k.method+" witnesses the message's time on "+k.clock+" on every path to its return", "must-pass")
+		if !ok && ex != nil {
+			c.Obs[len(c.Obs)-1].Desc += " — exit without it at " + c.P.InstrPos(ex)
+		}
+	}
 	for _, k := range []struct{ method, msg, clock string }{{"UserEvent", "messageUserEvent", "eventClock"}, {"Query", "messageQuery", "queryClock"}} {
 		fn := sm(c, "R1", "Serf", k.method)
 		if fn == nil {
